@@ -128,6 +128,17 @@ func runC40(c *eng.Ctx) {
 						}
 					}
 					checks = append(checks, fwd{"pair-prefix", okPrefix})
+					// the pairs are decoded exactly when the needle has pairs
+					hasPairs := eng.PassEdges(op, eng.BoolCall(true, "needle.Needle).HasPairs"))
+					okWhen := len(hasPairs) > 0
+					for _, un := range eng.Find(op, eng.PlainCallTo("json.Unmarshal")) {
+						for _, st := range startsOf(hasPairs) {
+							if hit, _ := eng.Search(st, eng.Is(un), eng.SearchOpt{}); hit == nil {
+								okWhen = false
+							}
+						}
+					}
+					checks = append(checks, fwd{"pairs-when-present", okWhen})
 					for _, f := range checks {
 						c.Ob("FIELDS-forward", eng.FuncName(rw)+" "+f.name, f.ok, call.Pos(), "the replica upload carries the needle's "+f.name)
 					}
@@ -169,6 +180,13 @@ func runC40(c *eng.Ctx) {
 				return isS && s == "replicate", b.Op == token.NEQ
 			})
 			c.Guard("GUARD-fanout", "only-initial-request", rw, eng.Entry(rw), look, notRepl, "only the initial request (not one that is itself a replicate request) looks up and writes the other replicas")
+			okLookW := len(notRepl) > 0 && len(look) == 1
+			for _, st := range startsOf(notRepl) {
+				if hit, _ := eng.Search(st, eng.AnyOf(look), eng.SearchOpt{}); hit == nil {
+					okLookW = false
+				}
+			}
+			c.Ob("GUARD-fanout", eng.FuncName(rw)+" initial-request-looks-up-replicas", okLookW, rw.Pos(), "an initial write request looks up the other replicas")
 			c.ErrChecked("ERR-replica", "lookup-error", rw, look, "an unknown replica set fails the write")
 			c.ErrChecked("ERR-replica", "fanout-error", rw, dist, "a failed replica fails the write")
 			c.ErrChecked("ERR-replica", "local-error", rw, local, "a failed local write fails the write")
@@ -179,6 +197,25 @@ func runC40(c *eng.Ctx) {
 		local := eng.Find(rd, eng.PlainCallTo("storage.Store).DeleteVolumeNeedle"))
 		if len(dist) == 1 && len(local) == 1 {
 			c.Guard("GUARD-fanout", "delete-after-local-delete", rd, eng.Entry(rd), dist, eng.PassEdges(rd, eng.ErrNil(eng.ErrOf(local[0]))), "the replicas are asked to delete only when the local delete succeeded")
+			lookD := eng.Find(rd, eng.PlainCallTo("topology.getWritableRemoteReplications"))
+			notReplD := eng.PassEdges(rd, func(cond ssa.Value) (bool, bool) {
+				b, ok := cond.(*ssa.BinOp)
+				if !ok || (b.Op != token.NEQ && b.Op != token.EQL) || !eng.MentionsCall(b.X, "http.Request).FormValue") {
+					return false, false
+				}
+				sv, isS := eng.ConstString(b.Y)
+				return isS && sv == "replicate", b.Op == token.NEQ
+			})
+			c.Guard("GUARD-fanout", "delete-only-initial-request", rd, eng.Entry(rd), lookD, notReplD, "only the initial delete request (not one that is itself a replicate request) looks up and asks the other replicas")
+			// ... and it does look them up: on the initial-request edge the lookup is reached
+			okLook := len(notReplD) > 0 && len(lookD) == 1
+			for _, st := range startsOf(notReplD) {
+				if hit, _ := eng.Search(st, eng.AnyOf(lookD), eng.SearchOpt{}); hit == nil {
+					okLook = false
+				}
+			}
+			c.Ob("GUARD-fanout", eng.FuncName(rd)+" initial-request-looks-up-replicas", okLook, rd.Pos(), "an initial delete request looks up the other replicas")
+			c.ErrChecked("ERR-replica", "delete-lookup-error", rd, lookD, "an unknown replica set fails the delete")
 			c.ErrChecked("ERR-replica", "delete-fanout-error", rd, dist, "a failed replica delete fails the delete")
 			c.ErrChecked("ERR-replica", "delete-local-error", rd, local, "a failed local delete fails the delete")
 			if mc, ok := eng.Unwrap(eng.Arg(dist[0].(*ssa.Call), 2)).(*ssa.MakeClosure); ok {
@@ -195,9 +232,9 @@ func runC40(c *eng.Ctx) {
 			c.Undecided("GUARD-fanout", eng.FuncName(rd), rd.Pos(), "local delete / fan-out not found")
 		}
 	}
-	c.Expect("FIELDS-forward", 13)
-	c.Expect("GUARD-fanout", 4)
-	c.Expect("ERR-replica", 6)
+	c.Expect("FIELDS-forward", 14)
+	c.Expect("GUARD-fanout", 7)
+	c.Expect("ERR-replica", 7)
 
 	// ---------------------------------------------------------------- (3) WAIT-all
 	if do := c.NeedFunc("weed/topology", "distributedOperation"); do != nil {
@@ -332,6 +369,27 @@ func runC40(c *eng.Ctx) {
 				if hit, _ := eng.Search(st, eng.AnyOf(nils), eng.SearchOpt{Barrier: eng.AnyOf(app)}); hit != nil {
 					okAgg = false
 				}
+			}
+		}
+		if okAgg {
+			// the nil answer sits behind "no error was collected"
+			none := eng.PassEdges(ag, func(cond ssa.Value) (bool, bool) {
+				b, ok := cond.(*ssa.BinOp)
+				if !ok || !isZero(b.Y) || !eng.MentionsCall(b.X, "builtin.len") {
+					return false, false
+				}
+				switch b.Op {
+				case token.EQL:
+					return true, true
+				case token.NEQ, token.GTR:
+					return true, false
+				}
+				return false, false
+			})
+			if len(none) == 0 {
+				okAgg = false
+			} else if hit, _ := eng.Search(eng.Entry(ag), eng.AnyOf(nils), eng.SearchOpt{Cut: none}); hit != nil {
+				okAgg = false
 			}
 		}
 		c.Ob("WAIT-all", eng.FuncName(ag)+" any-error-is-an-error", okAgg, ag.Pos(), "the aggregate is nil only when no location reported an error")
